@@ -4,7 +4,8 @@
 # the patch applies to the current /repo HEAD, the repository's tests of the touched packages still pass with it,
 # the demonstration fails with it and passes without it.
 import json, os, shutil, sys, glob
-src, conf, out = "/var/tmp/seeds", "/var/tmp/seedout", "/verif/seeded"
+import sys
+src, conf, out = (sys.argv[1], sys.argv[2], "/verif/seeded") if len(sys.argv) > 2 else ("/var/tmp/seeds", "/var/tmp/seedout", "/verif/seeded")
 kept, dropped = [], []
 for meta in sorted(glob.glob(src + "/C*/m*/meta.json")):
     d = os.path.dirname(meta); prop = d.split("/")[-2]; sid = prop + "-" + d.split("/")[-1]
